@@ -231,3 +231,20 @@ def spec_hash(sub=()):
     for p in paths:
         h.update(open(p, "rb").read())
     return h.hexdigest()[:16]
+
+
+def run_go_fuzz(scratch, fuzztime, target="FuzzStep"):
+    """Coverage-guided fuzzing of the real package with the harness' fuzz target; returns the corpus dir."""
+    hdir = os.path.join(scratch, "harness")
+    if not os.path.isdir(hdir):
+        raise MachineryError("harness not built")
+    cdir = os.path.join(scratch, "fuzzcache")
+    os.makedirs(cdir, exist_ok=True)
+    for tg in ("verif verifhooks", "verif"):
+        p = sh(["go", "test", "-tags", tg, "-run", "^$", "-fuzz", "^%s$" % target, "-fuzztime", fuzztime,
+                "-test.fuzzcachedir", cdir, "."], cwd=hdir, env=GOENV, timeout=3600, check=False)
+        if "build failed" in p.stdout or "undefined:" in p.stdout:
+            continue
+        break
+    crash = "FAIL" in p.stdout and "Failing input written" in p.stdout
+    return cdir, p.stdout, crash
